@@ -345,6 +345,23 @@ impl Prop for C03 {
                 },
             ));
         }
+        {
+            const LONG_LINES: [&str; 16] = ["c p u = 4", "u = 3", "c p = 2", "a b = 9", "c p u * u", "u * c p u", "c p u u", "u c p u", "c p u + c p u", "a b u", "u a b", "a b a b", "c p u", "c p u = c p u + u", "c p * u", "u = c p u"];
+            let dl = tier.pick(3, 4);
+            f.push(Family::new(
+                "long-name-programs",
+                Mode::Full,
+                &format!("every program of 1..={} lines over {} line kinds with a three-word name ('c p u'), its two-word prefix ('c p'), a two-word name ('a b') and a one-word name ('u'): a multi-word name followed by an operator and another name, followed directly by another name, used twice, re-bound through itself", dl, LONG_LINES.len()),
+                move |ch| {
+                    let n = 1 + ch.choose(dl);
+                    let mut lines = Vec::new();
+                    for _ in 0..n {
+                        lines.push(ch.pick(&LONG_LINES).to_string());
+                    }
+                    Some(Case { lines, bfs: None })
+                },
+            ));
+        }
         if tier == Tier::Thorough {
             f.push(Family::new(
                 "number-programs-deep",
